@@ -48,7 +48,8 @@ class VttCue:
     center = "center"
     right = "right"
 
-  _EOL_SEQ_RE = re.compile(r"\n{2,}")
+  # CR LF, LF and CR all terminate a line
+  _EOL_SEQ_RE = re.compile(r"[\r\n]+")
 
   def __init__(self, identifier: Optional[int] = None):
     self._id: int = identifier
